@@ -81,6 +81,10 @@ func (x *Exec) invoke(fr *Frame, st *State, cc *ssa.CallCommon, recv V, args []V
 	if name == "Error" && cc.Method.Type().(*types.Signature).Params().Len() == 0 {
 		return x.freshOfType(st, rt, "errstr")
 	}
+	if cc.Method.Pkg() != nil && cc.Method.Pkg().Path() == "context" {
+		x.trust("context.Context methods are pure (arbitrary results, no heap effect)")
+		return x.freshOfType(st, rt, "ctx")
+	}
 	x.havocAll(st, fmt.Sprintf("interface method call %s without a port contract", full))
 	return x.freshOfType(st, rt, "inv")
 }
@@ -123,8 +127,10 @@ func (x *Exec) callFunc(fr *Frame, st *State, callee *ssa.Function, bindings []V
 		return x.callContract(fr, st, c, callee, nil, args, rt, pos)
 	}
 	x.prog.ensureBuilt(callee)
-	if callee.Blocks == nil {
+	if callee.Blocks == nil || !x.prog.inRepo(pkgPathOfKey(callee, x.prog)) {
+		// standard library / third-party code is never inlined: modelled (lib.go), contracted, pure by list, or unknown
 		if x.prog.knownPure(key) {
+			x.trust("library function " + key + " is treated as pure: result unconstrained, no heap effect")
 			return x.freshOfType(st, rt, "ext")
 		}
 		x.havocAll(st, "call to external function "+key+" without contract")
@@ -160,6 +166,13 @@ func (x *Exec) callFunc(fr *Frame, st *State, callee *ssa.Function, bindings []V
 	x.assume(g, out.guard)
 	st.guard = g
 	return x.packResults(rt, rs)
+}
+
+func pkgPathOfKey(fn *ssa.Function, p *Program) string {
+	if tp := p.pkgOfFunc(fn); tp != nil {
+		return tp.Path()
+	}
+	return ""
 }
 
 // inlinable: small, loop-free (or with invariants for every loop) callees are
@@ -380,7 +393,7 @@ func (x *Exec) collectMods(fn *ssa.Function, blocks map[*ssa.BasicBlock]bool, se
 					if c := x.portContract(cc.Method); c != nil && (c.HasAssigns || c.Pure) && len(c.Assigns) == 0 {
 						continue
 					}
-					if cc.Method.Name() == "Error" {
+					if cc.Method.Name() == "Error" || (cc.Method.Pkg() != nil && cc.Method.Pkg().Path() == "context") {
 						continue
 					}
 					all = true
@@ -442,7 +455,7 @@ func (x *Exec) collectMods(fn *ssa.Function, blocks map[*ssa.BasicBlock]bool, se
 						continue
 					}
 					x.prog.ensureBuilt(cf)
-					if cf.Blocks == nil {
+					if cf.Blocks == nil || !x.prog.inRepo(pkgPathOfKey(cf, x.prog)) {
 						if !x.prog.knownPure(key) {
 							all = true
 						}
